@@ -64,6 +64,16 @@ def build(spec):
             v = x.T.reshape(-1, 1)  # toqito convention: J = sum_ij E_ij (x) Phi(E_ij)
             J += v @ v.conj().T
         return J
+    if k == "enlg_pred":
+        # referee operators of the BB84 extended nonlocal game, V[:, :, a, b, x, y] (questions x = y; win iff a == b, operator = projector of the x-basis)
+        e0, e1 = np.array([1.0, 0.0]), np.array([0.0, 1.0])
+        ep, em = (e0 + e1) / np.sqrt(2), (e0 - e1) / np.sqrt(2)
+        V = np.zeros((2, 2, 2, 2, 2, 2), dtype=complex if spec.get("complex") else float)
+        V[:, :, 0, 0, 0, 0] = np.outer(e0, e0)
+        V[:, :, 1, 1, 0, 0] = np.outer(e1, e1)
+        V[:, :, 0, 0, 1, 1] = np.outer(ep, ep)
+        V[:, :, 1, 1, 1, 1] = np.outer(em, em)
+        return V
     raise ValueError("unknown argument kind %r" % k)
 
 
